@@ -52,17 +52,21 @@ type entrySpec struct {
 	Workers  int
 	MaxPaths int
 	NoReplay bool // counterexamples cannot be replayed natively (contract stubs)
+	NoConc   bool // summaries stay symbolic (no forking over their paths)
 }
 
 type harnessFile struct {
-	Path    string
-	PkgDir  string
-	Content []byte
-	Entries []*entrySpec
-	Stubs   [][2]string
-	Bounds  []string
-	Outside []string
-	Assume  []string
+	Path       string
+	PkgDir     string
+	Content    []byte
+	Entries    []*entrySpec
+	Stubs      [][2]string
+	Summ       []string
+	SummConc   []string
+	StubAlways []string
+	Bounds     []string
+	Outside    []string
+	Assume     []string
 }
 
 func parseHarness(path string) (*harnessFile, error) {
@@ -112,14 +116,24 @@ func parseHarness(path string) (*harnessFile, error) {
 					e.MaxPaths, _ = strconv.Atoi(p[1])
 				case "replay":
 					e.NoReplay = p[1] == "no"
+				case "conc":
+					e.NoConc = p[1] == "no"
 				}
 			}
 			hf.Entries = append(hf.Entries, e)
-		case "stub":
+		case "stub", "stub-always":
 			f := strings.Fields(arg)
 			if len(f) == 2 {
 				hf.Stubs = append(hf.Stubs, [2]string{f[0], f[1]})
+				if sp[0] == "stub-always" {
+					hf.StubAlways = append(hf.StubAlways, f[0])
+				}
 			}
+		case "summarize":
+			hf.Summ = append(hf.Summ, arg)
+		case "summarize-conc":
+			hf.Summ = append(hf.Summ, arg)
+			hf.SummConc = append(hf.SummConc, arg)
 		case "bound":
 			hf.Bounds = append(hf.Bounds, arg)
 		case "outside":
@@ -238,7 +252,7 @@ func load(files []*harnessFile) (*loaded, error) {
 		Mode:       packages.NeedName | packages.NeedFiles | packages.NeedCompiledGoFiles | packages.NeedImports | packages.NeedDeps | packages.NeedTypes | packages.NeedSyntax | packages.NeedTypesInfo | packages.NeedTypesSizes | packages.NeedModule,
 		Dir:        repoDir,
 		Overlay:    overlay,
-		BuildFlags: []string{"-tags=verif", "-mod=mod"},
+		BuildFlags: []string{"-tags=verif,appengine", "-mod=mod"},
 		Env:        append(os.Environ(), "GOFLAGS=-mod=mod", "GOPROXY=off", "GOSUMDB=off", "GOTOOLCHAIN=local", "CGO_ENABLED=1"),
 	}
 	initial, err := packages.Load(cfg, pats...)
@@ -278,6 +292,15 @@ func load(files []*harnessFile) (*loaded, error) {
 				return nil, fmt.Errorf("%s: entry %s not found in %s", hf.Path, e.Name, hf.PkgDir)
 			}
 			ld.entries[e.Name] = fn
+		}
+		for _, sm := range hf.Summ {
+			sh.Summarize[sm] = true
+		}
+		for _, sa := range hf.StubAlways {
+			sh.StubAlways[sa] = true
+		}
+		for _, sm := range hf.SummConc {
+			sh.SummarizeConc[sm] = true
 		}
 		for _, st := range hf.Stubs {
 			fn := p.Func(st[1])
@@ -390,6 +413,7 @@ func cmdCheck(args []string) int {
 			if e.MaxPaths > 0 {
 				cfg.MaxPaths = e.MaxPaths
 			}
+			cfg.NoSummConc = e.NoConc
 			hr := interp.Explore(ld.sh, cfg, ld.entries[e.Name])
 			results = append(results, hr)
 			specs = append(specs, e)
@@ -488,6 +512,9 @@ func cmdCheck(args []string) int {
 							eng = append(eng, "ASSERT-FAIL "+v.Label)
 						} else {
 							eng = append(eng, "PANIC")
+							if *debug {
+								fmt.Fprintf(os.Stderr, "concrete-mode %s: %s at %s: %s\n", jid, v.Kind, v.Site, v.Msg)
+							}
 						}
 					}
 					if note == "ASSUME-FAIL" {
